@@ -292,11 +292,15 @@ def parse_stats(stdout):
     return d
 
 
+CLI_ENV_EXTRA = {}   # (additive) further environment of every CLI run, set by a caller; empty = today's behaviour
+
+
 def cli_env(project: Project):
     env = {k: v for k, v in os.environ.items() if k not in ("PYTHONHASHSEED",)}
     env["HOME"] = str(project.home)
     env["PYTHONHASHSEED"] = "0"
     env["PYTHONDONTWRITEBYTECODE"] = "1"
+    env.update(CLI_ENV_EXTRA)
     return env
 
 
@@ -334,7 +338,10 @@ class DiagTap:
     (error -> fatal under strict) are attributed to the top-level event. Also records every line
     handed to `__log`, tagged with the index of the event that printed it."""
 
-    def __init__(self):
+    def __init__(self, record_sites=False):
+        # record_sites (additive, default off): every top-level event also gets `site` =
+        # (file of the calling frame, line of the call, name of the calling function)
+        self.record_sites = record_sites
         self.events = []
         self.printed = []
         self.stage = "pre"
@@ -384,6 +391,9 @@ class DiagTap:
                     ev = dict(level=level, badness=eff, where=where_now(), stage=tap.stage,
                               explicit=badness is not None, culprit=ck, line=line,
                               message=str(message), before=snapshot(), after=None)
+                    if tap.record_sites:
+                        fr = sys._getframe(1)
+                        ev["site"] = (fr.f_code.co_filename, fr.f_lineno, fr.f_code.co_name)
                     tap.events.append(ev)
                 try:
                     if badness is None:
@@ -441,7 +451,7 @@ class DiagTap:
         return self._stderr.getvalue()
 
 
-def run_inprocess(project: Project, argv):
+def run_inprocess(project: Project, argv, record_sites=False):
     """Run the real `main` in this process. Returns dict(exit, stdout, events, printed, buckets,
     outcome). `exit` is what the process would exit with."""
     import rattr.__main__ as main_mod  # noqa
@@ -454,7 +464,7 @@ def run_inprocess(project: Project, argv):
         with impl.in_dir(str(project.cwd)):
             drop_config()
             impl.clear_caches_fast()
-            with DiagTap() as tap, contextlib.redirect_stdout(out):
+            with DiagTap(record_sites=record_sites) as tap, contextlib.redirect_stdout(out):
                 def go():
                     args = parse_arguments(sys_args=list(argv))
                     cfg = Config(arguments=args, state=State())
